@@ -28,3 +28,6 @@ func vhGenerateSubKey(e etype.EType) (types.EncryptionKey, error) {
 	err := a.GenerateSeqNumberAndSubKey(e.GetETypeID(), e.GetKeyByteSize())
 	return a.SubKey, err
 }
+
+// VHMacLenForPAC: signature size of the PAC checksum types ([MS-PAC] 2.8): HMAC-MD5 16, AES 12/12/16/24
+func VHMacLenForPAC(et int) int { return vhProfileOf(et).macLen }
